@@ -416,6 +416,14 @@ ELEMENT_TYPE = Obj('Asn1Type', {'__id__': z3.Int('element.type')}, name='compone
 def _dc_spec(ex, env):
     def clone(ex2, self, *a, **kw):
         def append(ex3, me, value, *a2, **kw2):
+            # SequenceOf.append(value) takes no options
+            extra = kw2.get('**')
+            if a2 or [k for k in kw2 if k != '**']:
+                raise _Raise(ExcV('TypeError'))
+            if extra is not None:
+                for name_, (present, val_) in extra.entries.items():
+                    if present is True or (present is not False and ex3.choose(present, 'option-%s-given' % name_)):
+                        raise _Raise(ExcV('TypeError'))
             me.fields['items'] = SeqV(z3.Concat(me.fields['items'].z, z3.Unit(idof(value))), 'any')
         return Obj('SequenceOf', {'items': SeqV(z3.Empty(_S), 'any'), 'cleared': False, 'cloneOf': self},
                    {'append': append, 'clear': lambda ex3, me: me.fields.__setitem__('cleared', True)}, name='asn1Value')
@@ -431,12 +439,15 @@ NATIVE_DEC_COLLECTION = Contract(
     properties=['C17', 'C12'],
     params=dict(items=_PIntTuple(), self=PObj('SequenceOfOrSetOfPayloadDecoder'),
                 pyObject=PDerived(lambda ex, env: _PyItems([env['items'].z], names=('__id__',))), asn1Spec=PDerived(_dc_spec),
-                decodeFun=PConst(FnV(_d_decode, 'decodeFun')), options=POptions()),
+                decodeFun=PConst(FnV(_d_decode, 'decodeFun')), options=POptions(anOption=PBool())),
     globals={'converted': FnV(lambda ex, seq, upto: SeqV(D_ALL(seq.cols[0] if isinstance(seq, _RecSeqV) else seq.z, toint(upto)), 'any'), 'converted'),
              'unfold': FnV(lambda ex, seq, k: (lambda z, i: z3.Implies(i >= 0, D_ALL(z, i + 1) == z3.Concat(D_ALL(z, i), z3.Unit(D_DEC(z[i], z3.Int('element.type'))))))(
                  seq.cols[0] if isinstance(seq, _RecSeqV) else seq.z, toint(k)), 'unfold')},
     loops={0: Loop(index='k', invariant=['asn1Value.items == converted(loop_seq, k)', 'asn1Value.cleared'],
-                   havoc_fields=['asn1Value.items'], hints=['unfold(loop_seq, k)'])},
+                   havoc_fields=['asn1Value.items'], hints=['unfold(loop_seq, k)'],
+                   # the caller's options go to the element conversion (and nowhere else)
+                   iter_ensures=['last_kwargs("decodeFun").get("anOption", "absent") == old(options).get("anOption", "absent")'])},
+    calls={'decodeFun': _d_decode},
     ensures=[('every-item-converted-under-the-component-type-in-order', 'result.items == converted(items, len(items)) and result.cleared'),
              ('fresh-object-not-the-schema', 'result is not asn1Spec and result.cloneOf is asn1Spec')],
     note='python lists of any length')
